@@ -291,6 +291,9 @@ class SkipEngine(Engine):
               fails.append(('placeholder-silently-used', '%s/%s.%s holds a placeholder but the call succeeded' % (s, q, p)))
             except ValueError:
               pass
+            except RecursionError:
+              pass     # the value also holds an evaluated reference to the configurable itself (`y.h.a = [@s1/y.h(), ...]`):
+                       # unbounded recursion is Python's answer to that binding, with or without the placeholder
             except Exception as e:  # pylint: disable=broad-except
               if not (isinstance(e, TypeError) and 'macro()' in str(e)):   # an unbound macro evaluated first
                 fails.append(('placeholder-wrong-error', '%s: %s' % (type(e).__name__, e)))
@@ -625,6 +628,8 @@ class DynKnownEngine(Engine):
               except ValueError as e:
                 if 'No configurable matching' not in str(e):
                   fails.append(('placeholder-wrong-error', '%s: %s' % (what, e)))
+              except RecursionError:
+                pass     # a self-referential evaluated reference beside the placeholder
               except Exception as e:  # pylint: disable=broad-except
                 fails.append(('placeholder-wrong-error', '%s: %s: %s' % (what, type(e).__name__, e)))
           got = shown(gin, store, []) if deleted else None      # before finalize locks the configuration
